@@ -52,9 +52,15 @@ def l1_request(cs, smap, project=None, fresh=False, records=None):
             "records": records if records is not None else codes(cs), "fresh": fresh}
 
 
-def l2_request(data, smap, project=None, threads=1, mode="scs", chunks=None, rest=None, fail_at=None, fail_kind=None, fail_mode=None):
+def l2_request(data, smap, project=None, threads=1, mode="scs", chunks=None, rest=None, fail_at=None, fail_kind=None, fail_mode=None,
+               compression=None, format=None):
+    """compression: None (auto-detect) | 'bgzf' | 'none'; format: None (auto-detect) | 'vcf' | 'bcf' - the reader builder's explicit options."""
     r = {"op": "create", "data": data.hex(), "map": map_json(smap),
          "project": None if project is None else [m + 1 for m in project], "threads": threads, "mode": mode}
+    if compression is not None:
+        r["compression"] = compression
+    if format is not None:
+        r["format"] = format
     if chunks is not None:
         r["chunks"] = chunks
     if rest is not None:
